@@ -24,9 +24,12 @@ pub mod k0_runpar {
             relation r1(i64) = in1.into_iter().collect();
             relation r2(i64, i64, i64) = in2.into_iter().collect();
             r2(v1, v1, v1) <-- if let Some(v0) = Some(1), r0(v1, v0);
-            r2(v0, v2, v3) <-- r0(v0, v1), r0(v1, v2), r0(v2, v3);
-            r2(v0, v2, v3) <-- r0(v0, v1), r0(v1, v2), r0(v2, v3);
-            r2(v0, v1, v0) <-- r1(v0) if ((*v0) <= 3), r2(3, v1, v0);
+            r2(v0, v8, v9) <-- if let Some(v9) = Some(0), r0(v0, v1), r0(v1, v9) let v8 = ((*v0) + 1);
+            r2(v0, v1, v0) <-- r0(v0, v1), r0(v1, v1);
+            r2(1, v2, v0) <-- if let Some(v0) = Some(3), r0(v1, 2) if ((*v1) != 3) let v2 = ((*v1) + 1), if (v2 <= 6), if (v0 <= 6);
+            r2(3, v1, v1) <-- r0(v0, v1), r1(((*v1) + 0)) if ((*v0) <= 2), r1(v1);
+            r1(v2) <-- if let Some(v0) = Some(2), r2((v0 + 0), v1, v0), for v2 in 0..2, r0(((*v1) + 0), v3);
+            r2(v0, v0, v0) <-- r1(v0);
          };
          self.out0 = res.r0.iter().cloned().collect();
          self.out1 = res.r1.iter().cloned().collect();
@@ -60,16 +63,19 @@ pub mod k0_incmiddle {
    use crate::common::*;
    ascent_source! { k0_incmiddle_src:
       r2(v1, v1, v1) <-- if let Some(v0) = Some(1), r0(v1, v0);
-      r2(v0, v2, v3) <-- r0(v0, v1), r0(v1, v2), r0(v2, v3);
+      r2(v0, v8, v9) <-- if let Some(v9) = Some(0), r0(v0, v1), r0(v1, v9) let v8 = ((*v0) + 1);
+      r2(v0, v1, v0) <-- r0(v0, v1), r0(v1, v1);
    }
    ascent! {
       pub struct Prog;
       relation r0(i64, i64);
       relation r1(i64);
       relation r2(i64, i64, i64);
-      r2(v0, v2, v3) <-- r0(v0, v1), r0(v1, v2), r0(v2, v3);
+      r2(1, v2, v0) <-- if let Some(v0) = Some(3), r0(v1, 2) if ((*v1) != 3) let v2 = ((*v1) + 1), if (v2 <= 6), if (v0 <= 6);
+      r2(3, v1, v1) <-- r0(v0, v1), r1(((*v1) + 0)) if ((*v0) <= 2), r1(v1);
       include_source!(k0_incmiddle_src);
-      r2(v0, v1, v0) <-- r1(v0) if ((*v0) <= 3), r2(3, v1, v0);
+      r1(v2) <-- if let Some(v0) = Some(2), r2((v0 + 0), v1, v0), for v2 in 0..2, r0(((*v1) + 0), v3);
+      r2(v0, v0, v0) <-- r1(v0);
    }
    pub struct Inst { p: Prog, pool: Option<ascent::rayon::ThreadPool> }
    pub fn make(pool: Option<usize>) -> Box<dyn Driver> {
@@ -113,8 +119,8 @@ pub mod k1_both {
       r2(0, 3) <-- r1(2, 1);
       r3(v3, v2) <-- if let Some(v0) = None::<i64>, r2(v1, v0), if (v0 < 5), r1(v2, v3);
       r2(v0, v2) <-- r2(v0, v1), r2(v1, v2), r3(v2, v3);
-      r1(v0, v1) <-- let v9 = 2, r2(v0, v1), r1(v1, v9);
-      r3(v0, v0) <-- if let Some(v0) = Some(0), r3(v0, (v0 + 1));
+      r1(v0, v1) <-- r2(v0, v1), r1(((*v0) + 1), v2);
+      r3(v0, v0) <-- if let Some(v0) = Some(0), r3(v0, (v0 + 1)), if (v0 <= 6);
       r1(v0, v0) <-- r0(v0, 0, 1);
       r1(v3, v1) <-- for v0 in [0], r1(v1, v0), r3(v0, v2), r1(v3, v4), for v5 in [4, 2, 1];
    }
@@ -156,7 +162,7 @@ pub mod k2 {
       relation r2(i64, i64);
       relation r3(i64, i64);
       relation r4(i64, i64);
-      r2(v0, v1) <-- let v9 = 2, r4(v0, v1), r1(v1, v9);
+      r2(v0, v1) <-- r4(v0, v1), r1(v1, v1);
       r3(3, 0);
       r1(v0, v0) <-- r4(v0, 3), if let Some(v1) = None::<i64>, r4(v1, v2);
       r3(v2, v1) <-- if let Some(v0) = None::<i64>, r2(v1, 2), if ((*v1) != 4), r3(v2, v1) if ((*v2) != 2);
@@ -201,7 +207,7 @@ pub mod k2_gen {
       relation r2(i64, i64);
       relation r3(i64, i64);
       relation r4(i64, i64);
-      r2(v0, v1) <-- let v9 = 2, r4(v0, v1), r1(v1, v9);
+      r2(v0, v1) <-- r4(v0, v1), r1(v1, v1);
       r3(3, 0);
       r1(v0, v0) <-- r4(v0, 3), if let Some(v1) = None::<i64>, r4(v1, v2);
       r3(v2, v1) <-- if let Some(v0) = None::<i64>, r2(v1, 2), if ((*v1) != 4), r3(v2, v1) if ((*v2) != 2);
@@ -247,11 +253,9 @@ pub mod k3_mrt {
       relation r3(i64);
       relation r4(i64, i64, i64);
       relation r5(i64, i64);
-      r3(v0) <-- r1(v0, v1), r2(v1, v2), r5(v2, v3);
-      r5(v1, v0) <-- r0(v0, 3) if ((*v0) != 2), r0(v0, v1) if ((*v1) <= 4);
-      r2(v0, v0) <-- r1(3, 0), r4(v0, v1, v2), if let Some(v3) = Some((*v0)), r4(v4, v1, v5);
-      r5((v0 + 1), v0) <-- if let Some(v0) = None::<i64>, if (v0 < 6);
-      r2(v1, ((*v0) + 1)) <-- r1(v0, 2), r0(v1, v0), r1(v2, v3), if ((*v0) < 6);
+      r5(v0, v8) <-- if let Some(v9) = Some(3), r1(v0, v1), r2(v1, v9) let v8 = ((*v0) + 1);
+      r3(1) <-- r1(v0, 3) if ((*v0) != 2), r0(v0, v1) if ((*v1) <= 4), r0(v2, ((*v1) + 0));
+      r5(v3, v3) <-- r5(v0, v1) if ((*v1) < 6) let v2 = ((*v0) + 1), r3(v3) if (v2 <= 4);
    }
    pub struct Inst { p: Prog, pool: Option<ascent::rayon::ThreadPool> }
    pub fn make(pool: Option<usize>) -> Box<dyn Driver> {
@@ -287,8 +291,7 @@ pub mod k3_inclast {
    use ascent::lattice::{Dual, set::Set};
    use crate::common::*;
    ascent_source! { k3_inclast_src:
-      r3(v0) <-- r1(v0, v1), r2(v1, v2), r5(v2, v3);
-      r5(v1, v0) <-- r0(v0, 3) if ((*v0) != 2), r0(v0, v1) if ((*v1) <= 4);
+      r5(v0, v8) <-- if let Some(v9) = Some(3), r1(v0, v1), r2(v1, v9) let v8 = ((*v0) + 1);
    }
    ascent! {
       pub struct Prog;
@@ -298,9 +301,8 @@ pub mod k3_inclast {
       relation r3(i64);
       relation r4(i64, i64, i64);
       relation r5(i64, i64);
-      r2(v0, v0) <-- r1(3, 0), r4(v0, v1, v2), if let Some(v3) = Some((*v0)), r4(v4, v1, v5);
-      r5((v0 + 1), v0) <-- if let Some(v0) = None::<i64>, if (v0 < 6);
-      r2(v1, ((*v0) + 1)) <-- r1(v0, 2), r0(v1, v0), r1(v2, v3), if ((*v0) < 6);
+      r3(1) <-- r1(v0, 3) if ((*v0) != 2), r0(v0, v1) if ((*v1) <= 4), r0(v2, ((*v1) + 0));
+      r5(v3, v3) <-- r5(v0, v1) if ((*v1) < 6) let v2 = ((*v0) + 1), r3(v3) if (v2 <= 4);
       include_source!(k3_inclast_src);
    }
    pub struct Inst { p: Prog, pool: Option<ascent::rayon::ThreadPool> }
@@ -345,10 +347,10 @@ pub mod k4_par {
       relation r4(i64);
       relation r5(i64, i64, i64);
       r2(3, 1, 1) <-- r0(0);
-      r3(v2, v1, v2) <-- if let Some(v0) = Some(2), r0(v1), if let Some(v2) = Some((*v1));
+      r3(v2, v1, v2) <-- if let Some(v0) = Some(2), r0(v1), if let Some(v2) = Some((*v1)), if (v2 <= 6);
       r4(v0) <-- r2(3, v0, 1), r3(v1, v2, v3);
-      r5(v0, v1, v9) <-- for v9 in 0..4, r1(v0, v1), r1(v9, v1);
-      r3(v0, v1, v9) <-- for v9 in 0..2, r1(v0, v1), r1(v9, v1);
+      r5(v0, v2, v3) <-- r1(v0, v1), r1(v1, v2), r1(v2, v3);
+      r3(v0, v2, v3) <-- r1(v0, v1), r1(v1, v2), r1(v2, v3);
       r5(0, ((*v0) + 1), v0) <-- r3(0, 3, v0), if ((*v0) < 6);
    }
    pub struct Inst { p: Prog, pool: Option<ascent::rayon::ThreadPool> }
@@ -404,7 +406,7 @@ pub mod k5_run {
             r1(v0, v0) <-- r0(v0);
             r1(((*v1) + 1), v1) <-- r1(v0, 1), r1(v1, v0), if ((*v1) < 6);
             r2(v0) <-- if let Some(v9) = Some(0), r1(v0, v1), r1(v1, v9) let v8 = ((*v0) + 1);
-            r1(v0, v0) <-- if let Some(v0) = Some(0);
+            r1(v0, v0) <-- if let Some(v0) = Some(0), if (v0 <= 6);
             r2(v1) <-- r0(v0), for v1 in 0..1;
             r2(0);
             r1(v0, v1) <-- r2(v0), r0(v0), for v1 in [4, 4];
@@ -450,7 +452,7 @@ pub mod k5_incfirst {
       relation r1(i64, i64);
       relation r2(i64);
       include_source!(k5_incfirst_src);
-      r1(v0, v0) <-- if let Some(v0) = Some(0);
+      r1(v0, v0) <-- if let Some(v0) = Some(0), if (v0 <= 6);
       r2(v1) <-- r0(v0), for v1 in 0..1;
       r2(0);
       r1(v0, v1) <-- r2(v0), r0(v0), for v1 in [4, 4];
@@ -493,13 +495,16 @@ pub mod k6_grt {
       relation r2(i64, i64);
       relation r3(i64, i64);
       relation r4(i64, i64);
-      r1(v0, v1) <-- r2(v0, v1) if ((*v0) < 2), r1(v1, v2) if ((*v2) != (*v1));
-      r2(v0, v2) <-- r1(v0, v1), r1(v1, v2), r2(v2, v3);
-      r2(v0, v1) <-- r1(v0, v1);
-      r2(v2, v1) <-- r1(v0, v1) if ((*v0) <= 2) let v2 = ((*v0) + 1);
-      r2(v0, (v0 + 1)) <-- if let Some(v0) = Some(0), r2((v0 + 1), v0), if (v0 < 6);
-      r3(v1, 0) <-- r1(v0, v1), agg () = not() in r0(_);
-      r4(v0, v21) <-- r0(v0), agg v21 = sum(v20) in r3((*v0), v20);
+      relation r5(i64);
+      relation r6(i64);
+      r1(v0, v1) <-- r2(v0, v1), r1(((*v0) + 1), v2);
+      r1(v0, v1) <-- r1(v0, v1), r1(v1, v1);
+      r1(v0, v0) <-- r0(v0) if ((*v0) < 5);
+      r2(v2, v0) <-- if let Some(v0) = Some(1), r2((v0 + 1), (v0 + 1)) if (v0 <= 5), r1(v1, v2), if (v0 <= 6);
+      r3(v0, v21) <-- r0(v0), agg v21 = min(v20) in r1((*v0), v20);
+      r4(v0, v21) <-- r2(v0, v1), r0(v0), r0(v32), agg v21 = max(v20) in r3((*v32), v20);
+      r5(v1) <-- r1(v0, v1), r1(v1, v0), r0(v1), agg v21 = sum(v20) in r1((*v1), v20);
+      r6(v0) <-- r0(v0), r2(v31, v31), agg () = not() in r3((*v31), (*v0));
    }
    pub struct Inst { p: Prog, pool: Option<ascent::rayon::ThreadPool> }
    pub fn make(pool: Option<usize>) -> Box<dyn Driver> {
@@ -515,6 +520,8 @@ pub mod k6_grt {
          2 => { let v: Vec<(i64,i64,)> = parse_rows(rows)?; if append { self.p.r2.extend(v) } else { self.p.r2 = v } },
          3 => { let v: Vec<(i64,i64,)> = parse_rows(rows)?; if append { self.p.r3.extend(v) } else { self.p.r3 = v } },
          4 => { let v: Vec<(i64,i64,)> = parse_rows(rows)?; if append { self.p.r4.extend(v) } else { self.p.r4 = v } },
+         5 => { let v: Vec<(i64,)> = parse_rows(rows)?; if append { self.p.r5.extend(v) } else { self.p.r5 = v } },
+         6 => { let v: Vec<(i64,)> = parse_rows(rows)?; if append { self.p.r6.extend(v) } else { self.p.r6 = v } },
             _ => return None,
          }
          Some(())
@@ -522,7 +529,7 @@ pub mod k6_grt {
       fn run(&mut self) { match &self.pool { Some(pl) => { let p = &mut self.p; pl.install(|| p.run()) }, None => self.p.run() } }
       fn run_here(&mut self) { self.p.run() }
       fn run_timeout(&mut self, k: usize) -> Option<bool> { ascent::internal::verif::arm_deadline(k); let r = self.p.run_timeout(std::time::Duration::from_secs(1)); ascent::internal::verif::disarm(); Some(r) }
-      fn dump(&self) -> String { vec![dump_rel(0, self.p.r0.iter().map(Row::render).collect()), dump_rel(1, self.p.r1.iter().map(Row::render).collect()), dump_rel(2, self.p.r2.iter().map(Row::render).collect()), dump_rel(3, self.p.r3.iter().map(Row::render).collect()), dump_rel(4, self.p.r4.iter().map(Row::render).collect())].join(" | ") }
+      fn dump(&self) -> String { vec![dump_rel(0, self.p.r0.iter().map(Row::render).collect()), dump_rel(1, self.p.r1.iter().map(Row::render).collect()), dump_rel(2, self.p.r2.iter().map(Row::render).collect()), dump_rel(3, self.p.r3.iter().map(Row::render).collect()), dump_rel(4, self.p.r4.iter().map(Row::render).collect()), dump_rel(5, self.p.r5.iter().map(Row::render).collect()), dump_rel(6, self.p.r6.iter().map(Row::render).collect())].join(" | ") }
       fn iters(&self) -> String { format!("iters {}", self.p.scc_iters.iter().map(|x| x.to_string()).collect::<Vec<_>>().join(" ")) }
    }
 }
@@ -535,18 +542,21 @@ pub mod k6_init {
    use crate::common::*;
    ascent! {
       pub struct Prog;
-      relation r0(i64) = vec![(0,), (1,), (6,), (5,), (2,), (4,), (3,)];
-      relation r1(i64, i64) = vec![(4,1,), (1,2,), (5,1,), (1,4,), (3,1,), (3,3,)];
-      relation r2(i64, i64) = vec![(6,3,), (2,0,), (1,3,)];
-      relation r3(i64, i64) = vec![(2,3,), (0,0,), (1,0,)];
-      relation r4(i64, i64) = vec![(5,3,)];
-      r1(v0, v1) <-- r2(v0, v1) if ((*v0) < 2), r1(v1, v2) if ((*v2) != (*v1));
-      r2(v0, v2) <-- r1(v0, v1), r1(v1, v2), r2(v2, v3);
-      r2(v0, v1) <-- r1(v0, v1);
-      r2(v2, v1) <-- r1(v0, v1) if ((*v0) <= 2) let v2 = ((*v0) + 1);
-      r2(v0, (v0 + 1)) <-- if let Some(v0) = Some(0), r2((v0 + 1), v0), if (v0 < 6);
-      r3(v1, 0) <-- r1(v0, v1), agg () = not() in r0(_);
-      r4(v0, v21) <-- r0(v0), agg v21 = sum(v20) in r3((*v0), v20);
+      relation r0(i64);
+      relation r1(i64, i64) = vec![(0,5,)];
+      relation r2(i64, i64);
+      relation r3(i64, i64);
+      relation r4(i64, i64) = vec![(1,0,)];
+      relation r5(i64) = vec![(1,)];
+      relation r6(i64) = vec![(5,), (4,), (0,), (2,), (1,), (6,), (3,)];
+      r1(v0, v1) <-- r2(v0, v1), r1(((*v0) + 1), v2);
+      r1(v0, v1) <-- r1(v0, v1), r1(v1, v1);
+      r1(v0, v0) <-- r0(v0) if ((*v0) < 5);
+      r2(v2, v0) <-- if let Some(v0) = Some(1), r2((v0 + 1), (v0 + 1)) if (v0 <= 5), r1(v1, v2), if (v0 <= 6);
+      r3(v0, v21) <-- r0(v0), agg v21 = min(v20) in r1((*v0), v20);
+      r4(v0, v21) <-- r2(v0, v1), r0(v0), r0(v32), agg v21 = max(v20) in r3((*v32), v20);
+      r5(v1) <-- r1(v0, v1), r1(v1, v0), r0(v1), agg v21 = sum(v20) in r1((*v1), v20);
+      r6(v0) <-- r0(v0), r2(v31, v31), agg () = not() in r3((*v31), (*v0));
    }
    pub struct Inst { p: Prog, pool: Option<ascent::rayon::ThreadPool> }
    pub fn make(pool: Option<usize>) -> Box<dyn Driver> {
@@ -562,6 +572,8 @@ pub mod k6_init {
          2 => { let v: Vec<(i64,i64,)> = parse_rows(rows)?; if append { self.p.r2.extend(v) } else { self.p.r2 = v } },
          3 => { let v: Vec<(i64,i64,)> = parse_rows(rows)?; if append { self.p.r3.extend(v) } else { self.p.r3 = v } },
          4 => { let v: Vec<(i64,i64,)> = parse_rows(rows)?; if append { self.p.r4.extend(v) } else { self.p.r4 = v } },
+         5 => { let v: Vec<(i64,)> = parse_rows(rows)?; if append { self.p.r5.extend(v) } else { self.p.r5 = v } },
+         6 => { let v: Vec<(i64,)> = parse_rows(rows)?; if append { self.p.r6.extend(v) } else { self.p.r6 = v } },
             _ => return None,
          }
          Some(())
@@ -569,7 +581,7 @@ pub mod k6_init {
       fn run(&mut self) { match &self.pool { Some(pl) => { let p = &mut self.p; pl.install(|| p.run()) }, None => self.p.run() } }
       fn run_here(&mut self) { self.p.run() }
       fn run_timeout(&mut self, k: usize) -> Option<bool> { let _ = k; None }
-      fn dump(&self) -> String { vec![dump_rel(0, self.p.r0.iter().map(Row::render).collect()), dump_rel(1, self.p.r1.iter().map(Row::render).collect()), dump_rel(2, self.p.r2.iter().map(Row::render).collect()), dump_rel(3, self.p.r3.iter().map(Row::render).collect()), dump_rel(4, self.p.r4.iter().map(Row::render).collect())].join(" | ") }
+      fn dump(&self) -> String { vec![dump_rel(0, self.p.r0.iter().map(Row::render).collect()), dump_rel(1, self.p.r1.iter().map(Row::render).collect()), dump_rel(2, self.p.r2.iter().map(Row::render).collect()), dump_rel(3, self.p.r3.iter().map(Row::render).collect()), dump_rel(4, self.p.r4.iter().map(Row::render).collect()), dump_rel(5, self.p.r5.iter().map(Row::render).collect()), dump_rel(6, self.p.r6.iter().map(Row::render).collect())].join(" | ") }
       fn iters(&self) -> String { format!("iters {}", self.p.scc_iters.iter().map(|x| x.to_string()).collect::<Vec<_>>().join(" ")) }
    }
 }
@@ -587,18 +599,20 @@ pub mod k7_redecl {
       relation r2(i64);
       relation r3(i64, i64);
       relation r4(i64, i64, i64);
-      relation r5(i64) = vec![(9,)];
       relation r5(i64);
       relation r6(i64);
+      relation r7(i64) = vec![(9,)];
+      relation r7(i64);
       r3(1, 3) <-- r1(2);
-      r3(v0, v1) <-- r3(1, 2), if let Some(v0) = Some(1), r3(v0, v1);
-      r2(v0) <-- r3(v0, v1) if ((*v0) < 3), r3(v1, v2) if ((*v2) != (*v1));
-      r4(v0, 0, v0) <-- let v0 = 4, r2((v0 + 1)) if (v0 < 3);
-      r2(v0) <-- r0(v0);
-      r3(v0, 3) <-- for v0 in 0..4, r3(v0, v1), r2(2) if ((*v1) <= 3), r0(3);
-      r3(v0, v0) <-- r0(v0), r1(v1);
-      r5(v32) <-- r0(v0), r3(v0, v0), r3(v31, v32), agg v21 = min(v20) in r3(_, v20);
+      r3(v0, v1) <-- r3(1, 2), if let Some(v0) = Some(1), r3(v0, v1), if (v0 <= 6);
+      r4(v0, v1, v9) <-- let v9 = 1, r3(v0, v1), r3(v1, v9);
+      r2(v1) <-- let v0 = 4, r2((v0 + 1)) if (v0 < 3), r2(v1) if (v0 <= 5);
+      r2(1) <-- r4(v0, v1, v2), r1(v3);
+      r2(v1) <-- if let Some(v0) = Some(1), r0(v1), for v2 in 2..4, r0(v3) if (v0 < 2) let v4 = ((*v3) + 1);
+      r3(1, (v1 + 1)) <-- r2(v0) if ((*v0) < 6) let v1 = ((*v0) + 1), if (v1 < 6);
+      r5(v0) <-- r3(v0, v1), agg v21 = max(v20) in r3(v20, _);
       r6(v0) <-- r0(v0), agg () = not() in r3((*v0), (*v0));
+      r7(v0) <-- r3(v0, v1), agg v21 = min(v20) in r0(v20);
    }
    pub struct Inst { p: Prog, pool: Option<ascent::rayon::ThreadPool> }
    pub fn make(pool: Option<usize>) -> Box<dyn Driver> {
@@ -616,6 +630,7 @@ pub mod k7_redecl {
          4 => { let v: Vec<(i64,i64,i64,)> = parse_rows(rows)?; if append { self.p.r4.extend(v) } else { self.p.r4 = v } },
          5 => { let v: Vec<(i64,)> = parse_rows(rows)?; if append { self.p.r5.extend(v) } else { self.p.r5 = v } },
          6 => { let v: Vec<(i64,)> = parse_rows(rows)?; if append { self.p.r6.extend(v) } else { self.p.r6 = v } },
+         7 => { let v: Vec<(i64,)> = parse_rows(rows)?; if append { self.p.r7.extend(v) } else { self.p.r7 = v } },
             _ => return None,
          }
          Some(())
@@ -623,7 +638,7 @@ pub mod k7_redecl {
       fn run(&mut self) { match &self.pool { Some(pl) => { let p = &mut self.p; pl.install(|| p.run()) }, None => self.p.run() } }
       fn run_here(&mut self) { self.p.run() }
       fn run_timeout(&mut self, k: usize) -> Option<bool> { let _ = k; None }
-      fn dump(&self) -> String { vec![dump_rel(0, self.p.r0.iter().map(Row::render).collect()), dump_rel(1, self.p.r1.iter().map(Row::render).collect()), dump_rel(2, self.p.r2.iter().map(Row::render).collect()), dump_rel(3, self.p.r3.iter().map(Row::render).collect()), dump_rel(4, self.p.r4.iter().map(Row::render).collect()), dump_rel(5, self.p.r5.iter().map(Row::render).collect()), dump_rel(6, self.p.r6.iter().map(Row::render).collect())].join(" | ") }
+      fn dump(&self) -> String { vec![dump_rel(0, self.p.r0.iter().map(Row::render).collect()), dump_rel(1, self.p.r1.iter().map(Row::render).collect()), dump_rel(2, self.p.r2.iter().map(Row::render).collect()), dump_rel(3, self.p.r3.iter().map(Row::render).collect()), dump_rel(4, self.p.r4.iter().map(Row::render).collect()), dump_rel(5, self.p.r5.iter().map(Row::render).collect()), dump_rel(6, self.p.r6.iter().map(Row::render).collect()), dump_rel(7, self.p.r7.iter().map(Row::render).collect())].join(" | ") }
       fn iters(&self) -> String { format!("iters {}", self.p.scc_iters.iter().map(|x| x.to_string()).collect::<Vec<_>>().join(" ")) }
    }
 }
